@@ -400,6 +400,34 @@ def run(rep, tier):
                     "a resume that races with the task's first suspension re-queues it with hint -1 and, under a static policy, a "
                     "hinted task runs its next phase on another worker")
 
+    # ---- R5 (continued): who records the worker, and in which numbering.  The recorded number is used as a *pool-local*
+    # queue index (do_resume / set_active_state pass it as thread_schedule_hint to the task's own scheduler), so every
+    # writer stores a pool-local number: the scheduling loop's own worker index or get_local_worker_thread_num() - never
+    # the runtime-global worker number (they differ in every pool but the first)
+    from .common import who_references
+    W_, _, _ = who_references(rep, r"^pika::threads::detail::thread_data::set_last_worker_thread_num$", "set_last_worker_thread_num")
+    sites = []
+    seen_sites = set()
+    for Fx in W_:
+        for f in Fx.fns:
+            for b, i, ev in f.all_events():
+                if ev.get("k") == "call" and callee_short(ev) == "set_last_worker_thread_num" and ev.get("args") and loc_of(ev) not in seen_sites:
+                    seen_sites.add(loc_of(ev))
+                    sites.append((f, ev))
+    if len(sites) < 2:
+        raise AnalysisBroken("set_last_worker_thread_num: only %d call sites found in the library" % len(sites))
+    for f, ev in sites:
+        a = strip(ev["args"][0])
+        local_call = a.get("k") == "call" and callee_of(a).endswith("::get_local_worker_thread_num")
+        own_index = a.get("k") == "var" and a.get("param") and f.qname.endswith("scheduling_loop")
+        if local_call or own_index:
+            rep.ok("C10.R5", f, "%s records a pool-local worker number (%s)" % (f.qname.rsplit("::", 1)[-1], T(a)))
+        else:
+            rep.bad("C10.R5", f, loc_of(ev), "worker-number-space:" + f.qname.rsplit("::", 1)[-1],
+                    "%s records %s as the task's last worker: resume paths use the recorded number as a queue index local to the task's pool - a number from another numbering "
+                    "(e.g. the runtime-global worker number, which differs from the local one in every pool but the first) re-queues a resumed, hinted task on another worker of a static pool"
+                    % (f.qname.rsplit("::", 1)[-1], T(a)))
+
     # ---- R6: environment forwarding
     AL = facts(rep, driver("c03_algos.cpp"), [r"^pika::\w+_detail::"])
     by_ns = {}
